@@ -13,7 +13,7 @@ ssvars == <<have, tIntact, tTotal, tDelivered, tEnded>>
 allvars == <<wcalled, wdone, delivered, hs, closed, l, have, tIntact, tTotal, tDelivered, tEnded>>
 SInit == TInit /\ have = "none" /\ tIntact = 0 /\ tTotal = 0 /\ tDelivered = 0 /\ tEnded = FALSE
 SReset == TReset /\ have' = "none" /\ tIntact' = 0 /\ tTotal' = 0 /\ tDelivered' = 0 /\ tEnded' = FALSE
-Base == (THs \/ TWriteCall \/ TWriteRet \/ TQuiesce \/ TClose \/ TReadEnd \/ TInfo
+Base == (THalfClose \/ THs \/ TWriteCall \/ TWriteRet \/ TQuiesce \/ TClose \/ TReadEnd \/ TInfo
          \/ (Is("ReadRet") /\ Trace[l].d # "x" /\ TReadRet)) /\ UNCHANGED ssvars
 \* a ticket is used for at most one handshake; expired / absent falls back to UniformDH; both always work
 SConnect == /\ Is("Connect") /\ l' = l + 1 /\ Trace[l].ok
